@@ -259,7 +259,9 @@ pub type MsErr = String;
 pub fn to_ms<Pk: KeyOf, Ctx: ScriptContext>(n: &Node) -> Result<Miniscript<Pk, Ctx>, MsErr> {
     use Node::*;
     let sub = |x: &Node| -> Result<Arc<Miniscript<Pk, Ctx>>, MsErr> { Ok(Arc::new(to_ms::<Pk, Ctx>(x)?)) };
-    let e = |e: miniscript::Error| e.to_string();
+    // own prefix for type errors (callers tell them from context / limit rejections): taken from the
+    // variant, not from the wording of the library's message
+    let e = |e: miniscript::Error| match e { miniscript::Error::TypeCheck(_) => format!("typecheck: {}", e), other => format!("rejected: {}", other) };
     let thr = |k: usize, v: &Vec<u32>| -> Result<Vec<Pk>, MsErr> { let _ = k; Ok(v.iter().map(|i| Pk::of(*i)).collect()) };
     let t: Terminal<Pk, Ctx> = match n {
         True => Terminal::True,
